@@ -7,7 +7,7 @@ LEVEL = "model_checking"
 EXHAUSTIVE = True
 CHUNK = 1
 CASE_TIMEOUT = 600
-RULE = ("all statement sequences up to the depth bound over a 25-statement alphabet in which every statement is tagged with the word "
+RULE = ("all statement sequences up to the depth bound over a 25-statement alphabet (30 at depth <= 2: index mode on the program counter, 'x(pc)', '@x(r7)', '4(pc)') in which every statement is tagged with the word "
         "offsets that hold absolute addresses (immediate/absolute/index/.word of labels, of '.', and of symbols assigned label "
         "expressions before the labels exist; PC-relative operands, branches, sob, label differences directly and through symbols, "
         "an included file referring to a global of the including file, a '. = .+4' skip, a '.once'-guarded include), labels before/inside/after; each program is assembled at 5 "
@@ -48,7 +48,15 @@ S = [
     ("mov #il, r2", 4, [(1, "il", 0)], "il"),
     (". = .+4", 4, [], "dot"),
     (".include \"onc.mac\"", 4, [(1, ".", 2)], "onc"),
+    # index mode on the program counter: the index word is the value as written (an address moves, a number does not) although the
+    # mode bits are those of a PC-relative operand.  (explored at depth <= 2 with every statement of the alphabet before and after)
+    ("mov m(pc), r0", 4, [(1, "m", 0)], ""),
+    ("clr @e(r7)", 4, [(1, "e", 0)], ""),
+    ("mov 4(pc), r1", 4, [], ""),
+    ("jmp s+2(%7)", 4, [(1, "s", 2)], ""),
+    ("mov @6(pc), m(pc)", 6, [(2, "m", 0)], ""),
 ]
+N3 = 25   # the statements explored at depth 3
 DEFS = {"sz": "sz = e - s", "fp": "fp = e - 2", "pa": "pa = m + 2"}
 TREE = {"inc.mac": "mov gl, r1\n.word gl\n",
         # an included file that refers to its own first label (whose address is the bare start promise of that file)
@@ -65,8 +73,8 @@ CORE = [0, 3, 4, 6, 8, 10, 16, 19, 22, 23, 24]
 
 
 def bound(tier):
-    return "depth 3 complete over %d statements%s x 3 base placements x %s bases, all base pairs compared" % (
-        len(S), (", depth 4 complete over a core of %d statements" % len(CORE)) if tier == "thorough" else "", "5-7" if tier == "thorough" else "4-6")
+    return "depth 3 complete over %d statements, depth 2 over %d (index mode on the program counter added)%s x 3 base placements x %s bases, all base pairs compared" % (
+        N3, len(S), (", depth 4 complete over a core of %d statements" % len(CORE)) if tier == "thorough" else "", "5-7" if tier == "thorough" else "4-6")
 
 
 def cases(tier):
@@ -74,7 +82,7 @@ def cases(tier):
         if d <= 2:
             yield {"k": "seq", "d": d, "first": []}
         else:
-            for f in range(len(S)):
+            for f in range(N3):
                 yield {"k": "seq", "d": d, "first": [f]}
     if tier == "thorough":
         for f in CORE:
@@ -224,5 +232,5 @@ def check(case, r, tier):
             PLACE = saved
         return
     d, first = case["d"], case["first"]
-    for rest in itertools.product(CORE if case.get("core") else range(len(S)), repeat=d - len(first)):
+    for rest in itertools.product(CORE if case.get("core") else range(len(S) if d <= 2 else N3), repeat=d - len(first)):
         check_seq(first + list(rest), r)
